@@ -9,6 +9,11 @@ from .jacobi import (
 )
 
 
+def _per_order(cs, seq):
+    """Shape one constant per order to broadcast against seq, shape (len(ns), *x.shape)."""
+    return np.reshape(cs, (-1,) + (1,) * (seq.ndim - 1))
+
+
 def cheby1(n, x):
     """Chebyshev polynomial of the first kind of order n.
 
@@ -47,7 +52,7 @@ def cheby1_seq(ns, x):
     ns = list(ns)
     cs = 1/jacobi_seq(ns, -.5, -.5, np.ones(1, dtype=x.dtype))
     seq = jacobi_seq(ns, -.5, -.5, x)
-    return seq*cs
+    return seq*_per_order(cs, seq)
 
 
 def cheby1_der(n, x):
@@ -88,7 +93,7 @@ def cheby1_der_seq(ns, x):
     ns = list(ns)
     cs = 1/jacobi_seq(ns, -.5, -.5, np.ones(1, dtype=x.dtype))
     seq = jacobi_der_seq(ns, -.5, -.5, x)
-    return seq*cs
+    return seq*_per_order(cs, seq)
 
 
 def cheby2(n, x):
@@ -126,16 +131,13 @@ def cheby2_seq(ns, x):
         return has shape (5, 100, 100)
 
     """
-    # gross squeeze -> new axis dance;
-    # seq is (N,M)
-    # cs is (N,)
-    # return of jacobi_seq is (N,1)
-    # drop the 1 to avoid broadcast to (N,N)
-    # then put back 1 for compatibility on the multiply
+    # seq is (N, *x.shape)
+    # return of jacobi_seq at x=1 is (N,1); squeeze to (N,) for the divide,
+    # _per_order then restores one trailing axis per dimension of x
     ns = np.asarray(ns)
     cs = (ns+1)/np.squeeze(jacobi_seq(ns, .5, .5, np.ones(1, dtype=x.dtype)))
     seq = jacobi_seq(ns, .5, .5, x)
-    return seq*cs[:, np.newaxis]
+    return seq*_per_order(cs, seq)
 
 
 def cheby2_der(n, x):
@@ -176,7 +178,7 @@ def cheby2_der_seq(ns, x):
     ns = np.asarray(ns)
     cs = (ns + 1)/np.squeeze(jacobi_seq(ns, .5, .5, np.ones(1, dtype=x.dtype)))
     seq = jacobi_der_seq(ns, .5, .5, x)
-    return seq*cs[:, np.newaxis]
+    return seq*_per_order(cs, seq)
 
 
 def cheby3(n, x):
@@ -217,7 +219,7 @@ def cheby3_seq(ns, x):
     ns = list(ns)
     cs = 1/jacobi_seq(ns, -.5, .5, np.ones(1, dtype=x.dtype))
     seq = jacobi_seq(ns, -.5, .5, x)
-    return seq*cs
+    return seq*_per_order(cs, seq)
 
 
 def cheby3_der(n, x):
@@ -258,7 +260,7 @@ def cheby3_der_seq(ns, x):
     ns = list(ns)
     cs = 1/jacobi_seq(ns, -.5, .5, np.ones(1, dtype=x.dtype))
     seq = jacobi_der_seq(ns, -.5, .5, x)
-    return seq*cs
+    return seq*_per_order(cs, seq)
 
 
 def cheby4(n, x):
@@ -299,7 +301,7 @@ def cheby4_seq(ns, x):
     ns = np.asarray(ns)
     cs = (2*ns+1)/np.squeeze(jacobi_seq(ns, .5, -.5, np.ones(1, dtype=x.dtype)))
     seq = jacobi_seq(ns, .5, -.5, x)
-    return seq*cs[:, np.newaxis]
+    return seq*_per_order(cs, seq)
 
 
 def cheby4_der(n, x):
@@ -340,4 +342,4 @@ def cheby4_der_seq(ns, x):
     ns = np.asarray(ns)
     cs = (2*ns+1)/np.squeeze(jacobi_seq(ns, .5, -.5, np.ones(1, dtype=x.dtype)))
     seq = jacobi_der_seq(ns, .5, -.5, x)
-    return seq*cs[:, np.newaxis]
+    return seq*_per_order(cs, seq)
